@@ -243,4 +243,19 @@ theorem absent_run (cfg : Cfg) (topic : Bytes) (k : Key) (evs : List Ev) :
     refine ⟨?_, h2⟩
     rw [fwdCount_cons, hf, h1]
 
+/-- `settle` keeps the keys of the pending set unique (it either leaves the set alone or filters it). -/
+theorem uniqueKeys_settle (cfg : Cfg) (st : St) (W : Nat) (rc : Bytes → RcAns) (h : UniqueKeys st.pending) :
+    UniqueKeys (settle cfg st W rc).1.pending := by
+  unfold settle settleWith
+  by_cases hc : (st.enabled && decide (W > st.last)) = true
+  · simp only [hc, if_true]
+    unfold processHeadWith
+    exact uniqueKeys_filter _ h
+  · simp only [hc]
+    exact h
+
+theorem mem_insertPend_self (p : Pend) (s : List Pend) : p ∈ insertPend p s := by
+  unfold insertPend
+  simp
+
 end Whv.Evm
